@@ -95,9 +95,24 @@ def project(result):
     if isinstance(result, NotPassed):
         return NotPassedMarker()
     if isinstance(result, Object):
-        return Model(type(result).__name__, [(k, project(v)) for k, v in result._dict.items()])
+        members = [(k, project(v)) for k, v in result._dict.items()]
+        # declared properties must be readable as attributes, every member by item access
+        for k, v in result._dict.items():
+            try:
+                if result[k] is not v or (k in type(result).properties and getattr(result, k) is not v):
+                    members.append(("__access_mismatch__:" + k, True))
+            except Exception:  # noqa
+                members.append(("__access_error__:" + k, True))
+        return Model(type(result).__name__, members)
     if isinstance(result, _AnonymousObject):
-        return Anon([(k, project(v)) for k, v in result.items()])
+        members = [(k, project(v)) for k, v in result.items()]
+        for k, v in result.items():
+            try:
+                if getattr(result, k) is not v:
+                    members.append(("__access_mismatch__:" + k, True))
+            except Exception:  # noqa
+                members.append(("__access_error__:" + k, True))
+        return Anon(members)
     if isinstance(result, dict):
         return {k: project(v) for k, v in result.items()}
     if isinstance(result, (list, tuple)):
